@@ -111,7 +111,7 @@ pub fn run_property(id: &str, opts: &Opts) -> i32 {
             Value::Null,
         ),
         "C16" => (
-            vec![run_part::<c15::C16Explore>(opts), run_part::<c15::C16Random>(opts), run_part::<c15::C16GoalBias>(opts)],
+            vec![run_part::<c15::C16Explore>(opts), run_part::<c15::C16Random>(opts), run_part::<c15::C16Chunk>(opts), run_part::<c15::C16GoalBias>(opts)],
             A_PLAN,
             Value::Null,
         ),
@@ -176,6 +176,7 @@ pub fn replay(opts: &Opts, doc: &Value) -> i32 {
     try_part!(c15::C15ReSetup);
     try_part!(c15::C16Explore);
     try_part!(c15::C16Random);
+    try_part!(c15::C16Chunk);
     try_part!(c15::C16GoalBias);
     try_part!(c15::C17Explore);
     try_part!(c15::C17Random);
